@@ -119,6 +119,26 @@ def _task(task):
                         )
                         break
                     last = i
+                # the same amounts in numpy containers (1-d, Fortran-ordered 2-d, a buffer refilled in place)
+                # take the very same path as the floats
+                if world != "simple":
+                    import numpy as np
+
+                    n4 = 4 * (len(V) // 4)
+                    for cname, arr in (("ndarray", np.array(V)), ("Fortran-ordered 2-d ndarray", np.asfortranarray(np.array(V[:n4]).reshape(-1, 2)))):
+                        part.count("evaluations")
+                        got = np.asarray(conv(qt, u, v, arr))
+                        exp = np.array(cuv[: arr.size]).reshape(arr.shape) if arr.ndim == 2 else np.array(cuv)
+                        if got.shape != exp.shape or not all(g == e or dims.close(g, e, max(abs(e), max_off, abs(ov)), TOL) for g, e in zip(got.ravel(), exp.ravel())):
+                            part.violation("C01:container:%s:%s:%s->%s:%s" % (world, qt, u, v, cname), {"got": got.tolist(), "floats": exp.tolist()},
+                                           _snip(world, "import numpy as np\na = %s\nr = db.Convert(%r, %r, %r, a)\ne = np.vectorize(lambda x: db.Convert(%r, %r, %r, float(x)))(a)\nprint(r, e)\nassert np.allclose(r, e, rtol=1e-12, atol=0)" % ("np.array(%r)" % (V,) if arr.ndim == 1 else "np.asfortranarray(np.array(%r).reshape(-1, 2))" % (V[:n4],), qt, u, v, qt, u, v)))
+                    buf = np.array(V)
+                    conv(qt, u, v, buf)
+                    buf[:] = buf[::-1].copy()
+                    got = conv(qt, u, v, buf)
+                    part.count("evaluations")
+                    if not all(g == e or dims.close(g, e, max(abs(e), max_off, abs(ov)), TOL) for g, e in zip(got, cuv[::-1])):
+                        part.violation("C01:container:%s:%s:%s->%s:ndarray refilled in place" % (world, qt, u, v), {"got": list(got), "floats": cuv[::-1]})
                 # round trip u -> v -> u
                 for x, y in zip(V, cuv):
                     back = conv(qt, v, u, y)
